@@ -70,6 +70,7 @@ type Frame struct {
 	nameFrame *Frame
 	lastPartial map[*Cell]map[int]bool
 	inlineInits bool
+	mutatedParams map[*ssa.Parameter]bool
 }
 
 type retInfo struct {
@@ -142,6 +143,44 @@ func (fr *Frame) analyse() {
 				}
 				if bi, ok := in.Call.Value.(*ssa.Builtin); ok && bi.Name() == "copy" {
 					fr.mutated[in.Call.Args[0]] = true
+				}
+				if callee := in.Call.StaticCallee(); callee != nil {
+					switch qualifiedName(callee) {
+					case "sort.Strings":
+						fr.mutated[in.Call.Args[0]] = true
+					case "sort.Slice", "sort.SliceStable":
+						if mi, ok := in.Call.Args[0].(*ssa.MakeInterface); ok {
+							fr.mutated[mi.X] = true
+						}
+					}
+				}
+			}
+		}
+	}
+	// parameters whose elements are written in place, directly or through the alloc that holds a captured parameter
+	paramAlloc := map[*ssa.Alloc]*ssa.Parameter{}
+	for _, b := range fn.Blocks {
+		for _, in := range b.Instrs {
+			if st, ok := in.(*ssa.Store); ok {
+				if a, ok := st.Addr.(*ssa.Alloc); ok {
+					if p, ok := st.Val.(*ssa.Parameter); ok {
+						paramAlloc[a] = p
+					}
+				}
+			}
+		}
+	}
+	fr.mutatedParams = map[*ssa.Parameter]bool{}
+	for v := range fr.mutated {
+		var roots []ssa.Value
+		rootsOf(v, &roots, 0)
+		for _, r := range roots {
+			switch r := r.(type) {
+			case *ssa.Parameter:
+				fr.mutatedParams[r] = true
+			case *ssa.Alloc:
+				if p, ok := paramAlloc[r]; ok {
+					fr.mutatedParams[p] = true
 				}
 			}
 		}
@@ -389,6 +428,24 @@ func (fr *Frame) mergeStates(ins []edgeIn) *State {
 			term = vc.define("m_"+c.Name, vc.cellSort(c), term)
 		}
 		out.cells[c] = term
+	}
+	for c, pv := range ins[0].st.ptrs {
+		same := true
+		for _, e := range ins[1:] {
+			o, ok := e.st.ptrs[c]
+			if !ok || o.Loc == nil || pv.Loc == nil || o.Loc.Cell != pv.Loc.Cell || len(o.Loc.Path) != len(pv.Loc.Path) || o.Nil != pv.Nil {
+				same = false
+				break
+			}
+			for k := range o.Loc.Path {
+				if o.Loc.Path[k] != pv.Loc.Path[k] {
+					same = false
+				}
+			}
+		}
+		if same {
+			out.ptrs[c] = pv
+		}
 	}
 	return out
 }
@@ -722,6 +779,7 @@ func (fr *Frame) havocCell(st *State, c *Cell, fields map[int]bool) {
 		}
 	}
 	st.cells[c] = vc.fresh("hv_"+c.Name, vc.cellSort(c))
+	delete(st.ptrs, c)
 }
 
 // writtenCells computes the cells possibly written by the given blocks. As a side
@@ -910,8 +968,45 @@ func (fr *Frame) callWrites(c *ssa.CallCommon, env map[ssa.Value]Val, fv map[*ss
 		fr.collectWrites(f.Blocks, map[ssa.Value]Val{}, m, out, all, depth+1)
 		return true
 	}
+	markTrace := func() {
+		if vc.traceCell != nil {
+			out[vc.traceCell] = true
+			out[vc.tlenCell] = true
+		}
+	}
 	callee := c.StaticCallee()
 	if c.IsInvoke() {
+		if n, ok := types.Unalias(c.Value.Type()).(*types.Named); ok && n.Obj().Pkg() != nil {
+			key := shortPath(n.Obj().Pkg().Path()) + ":" + n.Obj().Name() + "." + c.Method.Name()
+			if !strings.HasPrefix(n.Obj().Pkg().Path(), RepoModule) {
+				key = n.Obj().Pkg().Path() + "." + n.Obj().Name() + "." + c.Method.Name()
+			}
+			if sp, ok := vc.W.Specs[key]; ok {
+				if sp.Effect {
+					markTrace()
+				}
+				for _, m := range sp.Modifies {
+					name := rootIdent(m)
+					names := []string{"self"}
+					if len(sp.Params) > 0 {
+						for _, p := range sp.Params {
+							names = append(names, p.Name)
+						}
+					} else {
+						ps := c.Signature().Params()
+						for i := 0; i < ps.Len(); i++ {
+							names = append(names, ps.At(i).Name())
+						}
+					}
+					for i, pn := range names {
+						if pn == name && i >= 1 && i-1 < len(c.Args) {
+							mark(c.Args[i-1])
+						}
+					}
+				}
+				return
+			}
+		}
 		// interface method: governed by the interface contract; without one, reference arguments may be written
 		for _, a := range c.Args {
 			if _, isPtr := a.Type().Underlying().(*types.Pointer); isPtr {
@@ -954,6 +1049,9 @@ func (fr *Frame) callWrites(c *ssa.CallCommon, env map[ssa.Value]Val, fv map[*ss
 				}
 			}
 			return
+		}
+		if sp.Effect {
+			markTrace()
 		}
 		// only what `modifies` names: map the root identifier of each modifies expr to an argument
 		for _, m := range sp.Modifies {
@@ -1144,6 +1242,9 @@ func (fr *Frame) execStore(in *ssa.Store, cond string, st *State) {
 	}
 	loc := vc.ptrLoc(st, addr)
 	vc.store(st, loc, vc.term(st, v))
+	if v.Loc != nil && len(loc.Path) == 0 {
+		st.ptrs[loc.Cell] = v
+	}
 }
 
 func (fr *Frame) execMapUpdate(in *ssa.MapUpdate, cond string, st *State) {
@@ -1477,6 +1578,12 @@ func (fr *Frame) execUnOp(in *ssa.UnOp, cond string, st *State) Val {
 			vc.oblige(fr.top.oname(), "safe:nil-deref", fr.siteLabel(), fr.top.props, cond, not(n))
 		}
 		loc := vc.ptrLoc(st, x)
+		if len(loc.Path) == 0 {
+			if pv, ok := st.ptrs[loc.Cell]; ok {
+				pv.T = in.Type()
+				return pv
+			}
+		}
 		term := vc.load(st, loc)
 		out := Val{T: in.Type(), Term: term}
 		switch in.Type().Underlying().(type) {
